@@ -62,10 +62,6 @@ impl Env {
             inside: false,
         }
     }
-
-    pub fn is_sequential(&self) -> bool {
-        self.width == 1 && self.widths.iter().all(|w| *w == 1)
-    }
 }
 
 pub const WIDTHS: [usize; 10] = [1, 2, 3, 4, 7, 8, 16, 33, 64, 256];
